@@ -73,8 +73,8 @@ def _check_linking_constraint(must_link=None, cannot_link=None):
 
 @constraint_params({
     "gemini_model": [DiscriminativeModel],
-    "must-link": ["array-like", None],
-    "cannot-link": ["array-like", None],
+    "must_link": ["array-like", None],
+    "cannot_link": ["array-like", None],
     "factor": [Interval(Real, 0, None, closed="neither")]
 })
 def add_mlcl_constraint(gemini_model, must_link=None, cannot_link=None, factor=1.0):
